@@ -121,3 +121,7 @@ class Tolerancing:
 
         for compensator in self.compensator.variables:
             compensator.reset()
+
+        # re-apply pickups and solves: the compensator optimizer calls
+        # optic.update() at perturbed values
+        self.optic.update()
